@@ -73,6 +73,9 @@ def strip_comments(src):
         elif src.startswith("--", i):
             while i < n and src[i] != "\n":
                 i += 1
+        elif src[i] == '"' and i > 0 and src[i - 1] == "'" and i + 1 < n and src[i + 1] == "'":
+            out.append("Q")          # the character literal '"'
+            i += 1
         elif src[i] == '"':
             j = i + 1
             while j < n and src[j] != '"':
